@@ -2,7 +2,7 @@
 C16 — logins need valid credentials; remote commands need a live session.
 Property theorems only; the model is `Model/Session.lean`.
 -/
-import PrimaiteModel.Model.Session
+import PrimaiteModel.Lemmas.SessionCases
 import PrimaiteModel.Gen.Session
 namespace Primaite.Session
 
@@ -73,5 +73,112 @@ theorem C16_gen_service_methods :
     Gen.Session.restartFinishTest = "self.restart_countdown <= 0" ∧
     Gen.Session.svcStates = [("RUNNING", 1), ("STOPPED", 2), ("PAUSED", 3), ("DISABLED", 4), ("INSTALLING", 5), ("RESTARTING", 6)] := by
   decide
+
+/-! ### commands are executed only on a live session (or with valid local credentials) -/
+
+/-- files of every node untouched -/
+def KeepFiles : Nat → Node → Node → Prop := fun _ a b => b.files = a.files
+
+theorem keepFiles_frame : Frame KeepFiles :=
+  { refl := fun _ _ => rfl, trans := fun _ _ _ _ h1 h2 => Eq.trans h2 h1,
+    shr := fun _ _ _ h => h.files, data := fun _ _ _ h => data_files h }
+
+/-- files, terminal state and power untouched (what a local login leaves alone) -/
+def KeepExec : Nat → Node → Node → Prop := fun _ a b => b.files = a.files ∧ b.term = a.term ∧ b.power = a.power
+
+theorem keepExec_pre : Pre KeepExec :=
+  { refl := fun _ _ => ⟨rfl, rfl, rfl⟩,
+    trans := fun _ _ _ _ h1 h2 => ⟨h2.1.trans h1.1, h2.2.1.trans h1.2.1, h2.2.2.trans h1.2.2⟩ }
+
+theorem remoteExec_files (b : Node) (cid t k : Nat) :
+    (b.remoteExec cid t k).files = if b.isOn then b.files ++ [k] else b.files := by
+  unfold Node.remoteExec Node.exec Node.touch Node.isOn
+  dsimp only
+  split <;> rfl
+
+theorem localExec_files (b : Node) (k : Nat) :
+    (b.localExec k).files = if b.term.running && b.isOn then b.files ++ [k] else b.files := by
+  unfold Node.localExec Node.exec
+  cases h1 : b.term.running <;> cases h2 : b.isOn <;> simp [Node.addFile]
+
+/-- **C16, commands.** Whatever the operation, the files of node `y` change only if
+* the operation is a remote command from some `x` to `y` that arrived (sender ON, its terminal RUNNING, path open), the
+  connection it was sent on (the sender's first connection to `y`) carries an id that is at that moment a remote session of
+  `y` *and* a connection known to `y`'s terminal, and `y` is ON; or
+* it is a local command on `y` whose credentials pass `_login` (existing enabled account, current password, node ON,
+  both managers RUNNING) while the terminal is RUNNING.
+In both cases exactly the commanded file is added. -/
+theorem C16_command_runs_only_live (n : Net) (op : Op) (y : Nat) (b a : Node)
+    (hb : n.node y = some b) (ha : (step n op).1.node y = some a) (hne : a.files ≠ b.files) :
+    (∃ x k a' c, op = .remoteCmd x y k ∧ CmdArrives n x y a' b c ∧ b.hasSession c.id = true ∧ b.hasConn c.id = true ∧
+        b.isOn = true ∧ a.files = b.files ++ [k]) ∨
+    (∃ u p k, op = .localCmd y u p k ∧ b.isOn = true ∧ b.loginOk u p = true ∧ b.term.running = true ∧
+        a.files = b.files ++ [k]) := by
+  have contra : Net.Rel KeepFiles n (step n op).1 → False := fun h => by
+    obtain ⟨a', ha', hk⟩ := h.node y b hb
+    rw [ha] at ha'; cases ha'; exact hne hk
+  have F := keepFiles_frame
+  cases op with
+  | addUser y' u p adm => exact (contra (F.toPre.addUser n y' u p adm (fun _ _ => rfl))).elim
+  | disableUser y' u => exact (contra (F.toPre.disableUser n y' u (fun _ => rfl))).elim
+  | changePassword y' u o nw => exact (contra (F.changePassword n y' u o nw (fun _ => rfl))).elim
+  | localLogin y' u p =>
+    refine (contra ?_).elim
+    simp only [step]; rw [opLocalLogin_fst]; exact F.toPre.localLogin n y' u p (fun _ _ => rfl)
+  | localLogout y' => exact (contra (F.quiet n _ trivial)).elim
+  | remoteLogin x y' u p => exact (contra (F.toPre.remoteLogin n x y' u p (fun _ _ => rfl) (fun _ _ _ => rfl))).elim
+  | remoteLogoff x y' => exact (contra (F.quiet n _ trivial)).elim
+  | svc y' w v => exact (contra (F.quiet n _ trivial)).elim
+  | shutdown y' => exact (contra (F.quiet n _ trivial)).elim
+  | startup y' => exact (contra (F.quiet n _ trivial)).elim
+  | reset y' => exact (contra (F.quiet n _ trivial)).elim
+  | tick => exact (contra (F.quiet n _ trivial)).elim
+  | remoteCmd x y' k =>
+    simp only [step] at ha contra
+    rcases opRemoteCmd_cases n x y' k with ⟨h0, _⟩ | ⟨a', b', c, arr, ⟨hs, hc, h0⟩ | ⟨_, h0, _⟩⟩
+    · rw [h0] at contra; exact (contra (F.rel_refl n)).elim
+    · rw [h0] at ha
+      by_cases hy : y' = y
+      · subst hy
+        have hbb : b' = b := by have := arr.dst; rw [hb] at this; cases this; rfl
+        subst hbb
+        simp only [node_upd, if_true, hb, Option.map_some, Option.some.injEq] at ha
+        subst ha
+        rw [remoteExec_files] at hne ⊢
+        cases hon : b'.isOn with
+        | false => simp [hon] at hne
+        | true => exact Or.inl ⟨x, k, a', c, rfl, arr, hs, hc, rfl, by simp⟩
+      · simp only [node_upd, hy, if_false] at ha
+        rw [hb] at ha; cases ha; exact (hne rfl).elim
+    · rw [h0] at contra; exact (contra (F.rel_shr F.shr (F.rel_refl n) (shr_disconnect _ _ _ _))).elim
+  | localCmd y' u p k =>
+    simp only [step] at ha contra
+    have hl : Net.Rel KeepExec n (localLogin n y' u p).1 := keepExec_pre.localLogin n y' u p (fun _ _ => ⟨rfl, rfl, rfl⟩)
+    rcases opLocalCmd_cases n y' u p k with h0 | ⟨nd, hnd, hon, ⟨_, h0⟩ | ⟨id, hid, h0⟩⟩
+    · rw [h0] at contra; exact (contra (F.rel_refl n)).elim
+    · rw [h0] at contra; exact (contra (hl.mono (fun _ _ _ h => h.1))).elim
+    · rw [h0] at ha
+      obtain ⟨b1, hb1, hk1, ht1, hp1⟩ := hl.node y b hb
+      by_cases hy : y' = y
+      · subst hy
+        rw [hb] at hnd; cases hnd
+        simp only [node_upd, if_true, hb1, Option.map_some, Option.some.injEq] at ha
+        subst ha
+        have hlogin : b.loginOk u p = true := by
+          rcases localLogin_cases n y' u p with h1 | ⟨nd', hnd', hok, _⟩
+          · rw [h1] at hid; cases hid
+          · rw [hb] at hnd'; cases hnd'; exact hok
+        have hf : ((b1.addConn ⟨id, none⟩).localExec k).files =
+            if b.term.running && b.isOn then b.files ++ [k] else b.files := by
+          rw [localExec_files]
+          simp only [Node.addConn, Node.isOn, ht1, hp1, hk1]
+          rfl
+        rw [hf] at hne ⊢
+        cases hr : b.term.running with
+        | false => simp [hr] at hne
+        | true => exact Or.inr ⟨u, p, k, rfl, hon, hlogin, rfl, by simp [hon]⟩
+      · simp only [node_upd, hy, if_false] at ha
+        rw [hb1] at ha; cases ha; exact (hne hk1).elim
+
 
 end Primaite.Session
